@@ -25,6 +25,7 @@ PAR_RUNS = {
     "mpmc": [("2 2 1 0 0", "sync"), ("2 2 0 0 0", "sync"), ("2 2 2 0 0", "growing")],
     "oneshot": [("4 0 1 0 0", "sync"), ("4 1 1 0 0", "sync")],
     "timer": [("4 3 3", "sync")],
+    "state": [("4 0 0 2", "sync"), ("3 0 0 3", "sync")],
 }
 
 
